@@ -5,6 +5,32 @@ From PV Require Import Base.MachineInt Model.Znx Model.Limbs Model.C08Oracle
   Proofs.C08Shift Proofs.C08CrossInner Proofs.C08CrossGeom Proofs.C08CrossOuter.
 Open Scope Z_scope.
 
+Lemma rnd_bound (take abw an rho rnd : Z) : 1 <= take < abw -> in_range abw an ->
+  an = rho + 2 ^ take * rnd -> 2 * Z.abs rho <= 2 ^ take -> Z.abs rnd <= 2 ^ (abw - take).
+Proof.
+  intros Ht [A1 A2] E Hr.
+  assert (Eab : 2 ^ (abw - 1) = 2 ^ (take - 1) * 2 ^ (abw - take)) by (rewrite <- pow2_add by lia; f_equal; lia).
+  pose proof (pow2_split take ltac:(lia)) as Hs. pose proof (pow2_pos (take - 1) ltac:(lia)) as Hp.
+  pose proof (pow2_pos (abw - take) ltac:(lia)) as Hq.
+  set (T := 2 ^ (take - 1)) in *. set (Q := 2 ^ (abw - take)) in *. set (K := Z.abs rnd).
+  destruct (Z_le_gt_dec K Q) as [|Hgt]; auto. exfalso.
+  assert (H1 : Z.abs (2 ^ take * rnd) <= Z.abs an + Z.abs rho) by lia.
+  rewrite Z.abs_mul, (Z.abs_eq (2 ^ take)) in H1 by lia. fold K in H1.
+  assert (H2 : (2 * T) * (Q + 1) <= (2 * T) * K) by (apply Z.mul_le_mono_nonneg_l; lia).
+  rewrite Hs in H1. nia.
+Qed.
+
+Lemma drop_bound (Pa T Dlow rho : Z) : 0 < Pa -> 2 <= T -> Z.abs Dlow <= Pa - 1 -> 2 * Z.abs rho <= T ->
+  Z.abs (Dlow + Pa * rho) <= Pa * T.
+Proof.
+  intros HP HT HD Hr.
+  assert (Z.abs (Pa * rho) = Pa * Z.abs rho) by (rewrite Z.abs_mul, (Z.abs_eq Pa) by lia; reflexivity).
+  nia.
+Qed.
+
+Lemma small_g (k ab x lsh : Z) : 0 <= k -> 1 <= ab -> 0 <= x -> (k + 1) * ab + x <= lsh -> lsh < ab -> False.
+Proof. intros; nia. Qed.
+
 Section Loop.
 Variables rb ab : Z.
 Hypothesis Hrb : 1 <= rb <= 62.
@@ -68,9 +94,10 @@ Proof.
     assert (HF0 : 0 <= Fpos rb rsz s) by (apply Fpos_nonneg; [lia|apply Sh|lia]).
     assert (E1 : 2 ^ (g + Fpos rb rsz s) = 2 ^ (z + zn t * ab)) by (f_equal; clear - HF; lia).
     assert (E2 : 2 ^ (z + (zn t + 1) * ab) = 2 ^ (z + zn t * ab) * 2 ^ ab).
-    { rewrite <- pow2_add by (unfold zn; nia). f_equal. ring. }
+    { rewrite <- pow2_add by (try apply Z.add_nonneg_nonneg; try apply Z.mul_nonneg_nonneg; unfold zn; lia).
+      f_equal. ring. }
     assert (E3 : 2 ^ z * (vin a lsh t * 2 ^ (zn t * ab)) = 2 ^ (z + zn t * ab) * vin a lsh t).
-    { rewrite pow2_add by (unfold zn; nia). ring. }
+    { rewrite pow2_add by (try apply Z.mul_nonneg_nonneg; unfold zn; lia). ring. }
     rewrite E1, E2, E3.
     replace (vin a lsh t) with (wrap ab X + 2 ^ ab * bdiv ab X - c_acarry s) by (unfold X in Hdec |- *; lia).
     ring.
@@ -100,33 +127,32 @@ Proof.
   pose proof (pow2_pos take ltac:(lia)) as Hpt. pose proof (pow2_pos (ab - take) ltac:(lia)) as Hpr.
   pose proof (pow2_split ab Hab1) as Hsab. pose proof (pow2_pos (ab - 1) ltac:(lia)) as Hpab.
   assert (Hrnd : Z.abs rnd <= 2 ^ (ab - take)).
-  { destruct (Z_le_gt_dec (Z.abs rnd) (2 ^ (ab - take))) as [|Hgt]; auto.
-    assert ((2 ^ (ab - take) + 1) * 2 ^ take <= Z.abs rnd * 2 ^ take) by (apply Z.mul_le_mono_nonneg_r; lia).
-    assert (Z.abs (2 ^ take * rnd) <= Z.abs an + Z.abs rho) by lia.
-    rewrite Z.abs_mul, (Z.abs_eq (2 ^ take)) in H1 by lia. nia. }
+  { apply (rnd_bound take ab an rho rnd); [lia|split; assumption|exact Ern|exact Hrho]. }
   set (s2 := {| c_res := zeros rsz; c_anorm := rnd; c_acarry := ac; c_rcarry := 0; c_atake := ab - take;
                 c_racc := rb; c_rlimb := (rsz - 1)%nat |}).
   assert (EF : Fpos rb rsz s2 = 0).
   { unfold Fpos, s2. cbn [c_rlimb c_racc]. unfold zn. rewrite Nat2Z.inj_sub by lia. cbn. ring. }
-  unfold Entry. rewrite EF. cbn [c_res c_anorm c_acarry c_rcarry c_atake c_racc c_rlimb].
+  unfold Entry. rewrite EF.
+  change (c_res s2) with (zeros rsz). change (c_anorm s2) with rnd. change (c_acarry s2) with ac.
+  change (c_rcarry s2) with 0. change (c_atake s2) with (ab - take). change (c_racc s2) with rb.
   split.
   { unfold shape, s2. cbn [c_res c_rlimb c_racc]. split; [apply zeros_length|]. split; [lia|].
     split; [intros; apply nth_zeros|]. rewrite nth_zeros, Z.sub_diag. cbn. lia. }
   split; [lia|]. split; [lia|]. split; [exact Hrnd|]. split; [exact Hb|]. split; [reflexivity|].
   split; [rewrite Ez, Eg; ring|].
-  assert (Hpa : 0 < 2 ^ (zn a_out * ab)) by (apply pow2_pos; unfold zn; nia).
+  assert (Hpa : 0 < 2 ^ (zn a_out * ab)) by (apply pow2_pos; apply Z.mul_nonneg_nonneg; unfold zn; lia).
   exists (Dlow + 2 ^ (zn a_out * ab) * rho), X, rho.
   split; [|split; [|split; [exact HX|split]]].
   - unfold dropok. split.
-    + rewrite Eg, pow2_add by (unfold zn; nia).
-      assert (Z.abs (2 ^ (zn a_out * ab) * rho) = 2 ^ (zn a_out * ab) * Z.abs rho)
-        by (rewrite Z.abs_mul, (Z.abs_eq (2 ^ (zn a_out * ab))) by lia; reflexivity).
+    + rewrite Eg, pow2_add by (try apply Z.mul_nonneg_nonneg; unfold zn; lia).
       assert (take_ge : 2 <= 2 ^ take).
       { pose proof (pow2_split take ltac:(lia)). pose proof (pow2_pos (take - 1) ltac:(lia)). lia. }
-      nia.
+      apply drop_bound; [exact Hpa|exact take_ge|exact HD|exact Hrho].
     + intros Hgl.
       assert (Ea0 : a_out = 0%nat).
-      { destruct a_out as [|k]; [reflexivity|]. exfalso. unfold zn in *. rewrite Nat2Z.inj_succ in Eg. nia. }
+      { destruct a_out as [|k]; [reflexivity|]. exfalso.
+        apply (small_g (Z.of_nat k) ab take lsh); [lia|lia|lia| |lia].
+        unfold zn in Eg. rewrite Nat2Z.inj_succ in Eg. clear - Eg Hgl. lia. }
       destruct (H0 Ea0) as [Hac0 HD0]. rewrite HD0.
       assert (rho = 0); [|subst rho; ring].
       apply Hexact.
@@ -135,17 +161,18 @@ Proof.
       assert (EX : X = nthZ a (length a - 1 - a_out) * 2 ^ lsh).
       { unfold X. rewrite Hac0, Z.add_0_r. apply vin_at; [exact Ht|reflexivity]. }
       assert (El : 2 ^ lsh = 2 ^ take * 2 ^ (lsh - take)) by (rewrite <- pow2_add by lia; f_equal; lia).
-      replace an with (2 ^ take * (nthZ a (length a - 1 - a_out) * 2 ^ (lsh - take) - 2 ^ (ab - take) * ac)).
-      * rewrite Z.mul_comm. apply Z_mod_mult.
-      * rewrite Z.mul_sub_distr_l. rewrite Z.mul_assoc, <- Eab.
-        replace (2 ^ take * (nthZ a (length a - 1 - a_out) * 2 ^ (lsh - take)))
-          with (nthZ a (length a - 1 - a_out) * (2 ^ take * 2 ^ (lsh - take))) by ring.
-        rewrite <- El, <- EX. unfold an, ac in *. lia.
+      set (x := nthZ a (length a - 1 - a_out)) in *.
+      assert (Hmul : an = (x * 2 ^ (lsh - take) - 2 ^ (ab - take) * ac) * 2 ^ take).
+      { rewrite Z.mul_sub_distr_r.
+        replace (2 ^ (ab - take) * ac * 2 ^ take) with (2 ^ ab * ac) by (rewrite Eab; ring).
+        replace (x * 2 ^ (lsh - take) * 2 ^ take) with (x * 2 ^ lsh) by (rewrite El; ring).
+        rewrite <- EX. clear - Hdec. lia. }
+      rewrite Hmul. apply Z_mod_mult.
   - rewrite Ez, Z.pow_0_r, !Z.mul_1_l, Z.add_0_l, Z.add_0_r. rewrite Vres_zeros, Z.mul_0_r, Z.add_0_r.
     rewrite Lval_S, EL.
-    assert (E1 : 2 ^ g = 2 ^ (zn a_out * ab) * 2 ^ take) by (rewrite Eg; apply pow2_add; [unfold zn; nia|lia]).
+    assert (E1 : 2 ^ g = 2 ^ (zn a_out * ab) * 2 ^ take) by (rewrite Eg; apply pow2_add; [apply Z.mul_nonneg_nonneg; unfold zn; lia|lia]).
     assert (E2 : 2 ^ ((zn a_out + 1) * ab) = 2 ^ (zn a_out * ab) * 2 ^ ab).
-    { rewrite <- pow2_add by (unfold zn; nia). f_equal. ring. }
+    { rewrite <- pow2_add by (try apply Z.mul_nonneg_nonneg; unfold zn; lia). f_equal. ring. }
     rewrite E1, E2.
     replace (vin a lsh a_out) with (an + 2 ^ ab * ac - ac0) by (unfold X in Hdec; lia).
     rewrite Ern at 1. ring.
@@ -172,11 +199,14 @@ Proof.
     split; [intros; apply nth_zeros|]. rewrite nth_zeros, Er. replace (rb - (rb - m)) with m by ring.
     pose proof (pow2_pos m ltac:(lia)). cbn [Z.abs]. lia. }
   split; [lia|]. split; [reflexivity|]. split; [exact Hc0|]. split; [rewrite Eg; ring|].
-  assert (Hpa : 0 < 2 ^ (zn a_out * ab)) by (apply pow2_pos; unfold zn; nia).
+  assert (Hpa : 0 < 2 ^ (zn a_out * ab)) by (apply pow2_pos; apply Z.mul_nonneg_nonneg; unfold zn; lia).
   exists Dlow. split.
   - unfold dropok. split; [rewrite Eg; lia|]. intros Hgl. apply H0.
-    destruct a_out as [|k]; [reflexivity|]. exfalso. unfold zn in *. rewrite Nat2Z.inj_succ in Eg. nia.
-  - rewrite Vres_zeros, Z.mul_0_r, Z.add_0_r, EL, pow2_add by (unfold zn; nia). ring.
+    destruct a_out as [|k]; [reflexivity|]. exfalso.
+    apply (small_g (Z.of_nat k) ab 0 lsh); [lia|lia|lia| |lia].
+    unfold zn in Eg. rewrite Nat2Z.inj_succ in Eg. clear - Eg Hgl. lia.
+  - rewrite Vres_zeros, Z.mul_0_r, Z.add_0_r, EL.
+    rewrite pow2_add by (try apply Z.mul_nonneg_nonneg; unfold zn; lia). ring.
 Qed.
 
 (* all processed digits consumed without a break: the final invariant holds as well *)
@@ -193,7 +223,7 @@ Proof.
   assert (E1 : z + zn t * ab = g + zn rsz * rb) by (rewrite Et; lia).
   rewrite E1.
   assert (E2 : 2 ^ z * (2 ^ (zn t * ab) * Y) = 2 ^ (g + zn rsz * rb) * Y).
-  { rewrite <- E1, pow2_add by (unfold zn; nia). ring. }
+  { rewrite <- E1, pow2_add by (try apply Z.mul_nonneg_nonneg; unfold zn; lia). ring. }
   rewrite E2. ring.
 Qed.
 
@@ -208,23 +238,26 @@ Proof.
   intros Hlo Hgeo HT (Lr & drop & K & [Hd1 Hd2] & EV) HP. cbv zeta.
   set (A := zn (length a)) in *. set (R := zn rsz) in *.
   assert (HA : 0 <= A) by (unfold A, zn; lia). assert (HR : 0 <= R) by (unfold R, zn; lia).
-  assert (Hgle : g <= (A - lo) * ab) by (destruct Hzg; nia).
+  assert (HRrb : 0 <= R * rb) by (apply Z.mul_nonneg_nonneg; lia).
+  assert (HAab : 0 <= A * ab) by (apply Z.mul_nonneg_nonneg; lia).
+  assert (Hloab : 0 <= lo * ab) by (apply Z.mul_nonneg_nonneg; lia).
+  assert (HTab : 0 <= (A - lo) * ab) by (apply Z.mul_nonneg_nonneg; lia).
+  assert (Hgle : g <= (A - lo) * ab) by (destruct Hzg; lia).
   set (E1 := P - R * rb - g).
-  assert (HE1 : 0 <= E1) by (unfold E1; nia).
-  assert (HP0 : 0 <= P) by nia.
-  rewrite (val_scaled_Vres P rb rsz res ltac:(lia) Lr ltac:(fold R; nia)). fold R.
-  rewrite (val_scaled_vin ab P lo lsh a Hab1 ltac:(lia) ltac:(fold A; nia)). fold A.
+  assert (HE1 : 0 <= E1) by (unfold E1; lia).
+  assert (HP0 : 0 <= P) by lia.
+  rewrite (val_scaled_Vres P rb rsz res ltac:(lia) Lr ltac:(fold R; lia)). fold R.
+  rewrite (val_scaled_vin ab P lo lsh a Hab1 ltac:(lia) ltac:(fold A; lia)). fold A.
   fold (LvalI (length a)).
   assert (EA : P - (A - lo) * ab = E1 + z) by (unfold E1; lia).
   rewrite EA.
   assert (X1 : 2 ^ (E1 + z) * LvalI (length a)
-               = 2 ^ (E1 + z) * drop + 2 ^ (P - R * rb) * Vres rb rsz res + 2 ^ P * K).
-  { rewrite (pow2_add E1 z) by lia.
+               = 2 ^ (E1 + z) * drop + 2 ^ (E1 + g) * Vres rb rsz res + 2 ^ (E1 + (g + R * rb)) * K).
+  { rewrite (pow2_add E1 z), (pow2_add E1 g), (pow2_add E1 (g + R * rb)) by lia.
     replace (2 ^ E1 * 2 ^ z * LvalI (length a)) with (2 ^ E1 * (2 ^ z * LvalI (length a))) by ring.
-    rewrite EV.
-    replace (P - R * rb) with (E1 + g) by (unfold E1; ring).
-    replace P with (E1 + (g + R * rb)) at 3 by (unfold E1; ring).
-    rewrite (pow2_add E1 g), (pow2_add E1 (g + R * rb)) by nia. ring. }
+    rewrite EV. ring. }
+  replace (E1 + g) with (P - R * rb) in X1 by (unfold E1; ring).
+  replace (E1 + (g + R * rb)) with P in X1 by (unfold E1; ring).
   rewrite X1.
   replace (2 ^ (P - R * rb) * Vres rb rsz res
            - (2 ^ (E1 + z) * drop + 2 ^ (P - R * rb) * Vres rb rsz res + 2 ^ P * K))
@@ -238,9 +271,11 @@ Proof.
       rewrite Z.abs_opp, Z.abs_mul in Hle.
       pose proof (pow2_pos (E1 + z) ltac:(lia)) as Hp. rewrite (Z.abs_eq (2 ^ (E1 + z))) in Hle by lia.
       replace (P - R * rb) with ((E1 + z) + g) by (unfold E1; lia).
-      rewrite (pow2_add (E1 + z) g) by lia. nia.
-    + rewrite Hex by lia. pose proof (pow2_pos (P - R * rb) ltac:(nia)). lia.
-  - intros Hx. apply Hex. destruct Hzg; nia.
+      rewrite (pow2_add (E1 + z) g) by lia.
+      assert (2 ^ (E1 + z) * Z.abs drop <= 2 ^ (E1 + z) * 2 ^ g) by (apply Z.mul_le_mono_nonneg_l; lia).
+      lia.
+    + rewrite Hex by lia. pose proof (pow2_pos (P - R * rb) ltac:(lia)). lia.
+  - intros Hx. apply Hex. destruct Hzg; lia.
 Qed.
 
 End Loop.
